@@ -101,8 +101,9 @@ def registry_trace(rng, tid, prop, names):
                             "dtype": "int64"}))
     templates = spell_templates()
     for name in names:
-        if name in templates:
-            rec.do("spell", [a, b, v, w, t, s, c, d], keep=False, fn=name, np=[], np_out="ret")
+        for variant in (name, name + "#poly"):
+            if variant in templates:
+                rec.do("spell", [a, b, v, w, t, s, c, d], keep=False, fn=variant, np=[], np_out="ret")
     return rec.to_json()
 
 
